@@ -183,6 +183,15 @@ func (t *tamper) apply(kind int) string {
 		if c == nil || c.Kind != gen.KStr {
 			return ""
 		}
+		if strings.Contains(c.S, "\n") && t.draw(3, "mut:crlf") == 2 {
+			// line endings are content: a CR before an LF is a different command text
+			if strings.Contains(c.S, "\r\n") {
+				c.S = strings.Replace(c.S, "\r\n", "\n", 1)
+			} else {
+				c.S = strings.Replace(c.S, "\n", "\r\n", 1)
+			}
+			return "corrupt.command-line-ending"
+		}
 		c.S = mutateString(t, c.S)
 		return "corrupt.command"
 	case 1: // step env: change a value
